@@ -907,6 +907,10 @@ def run(ctx: Context):
                 if isinstance(n.ast, ast.Assign):
                     r.require(isinstance(n.ast.value, ast.Constant) and n.ast.value.value == 0, g, g.loc(n.ast),
                               "%s is initialised to %s" % (rem, src(g, n.ast.value)))
+                    in_loop = any(isinstance(lp, (ast.For, ast.While)) and any(x is n.ast for st in lp.body for x in own_nodes(st))
+                                  for lp in func_own_nodes(g))
+                    r.require(not in_loop, g, g.loc(n.ast), "the count of remaining leases %s is reset while the "
+                              "leases are being enumerated" % rem)
                 elif isinstance(n.ast, ast.AugAssign):
                     r.require(isinstance(n.ast.op, ast.Add) and isinstance(n.ast.value, ast.Constant)
                               and n.ast.value.value == 1, g, g.loc(n.ast), "%s is updated by %s" % (rem, src(g, n.ast)))
